@@ -295,3 +295,31 @@ package sqlx
 //@   loop 1 invariant 0 <= i
 //@   loop 1 iteration-ensures [field-i-in-order] calls(indirect.Field, at_head(i)) == 1 && i == at_head(i) + 1 && (calls(unwrapFields) == 0 ==> len(fields) == at_head(len(fields)) + 1) && (calls(unwrapFields) == 1 ==> len(fields) == at_head(len(fields)) + len(ret(unwrapFields)))
 //@   loop 1 iteration-ensures [embedded-structs-flattened-in-place] calls(unwrapFields) == 1 ==> ret(Field, 0, 2).Anonymous && calls(unwrapFields) <= 1
+
+// Construction: the connection's transactions start through `begin` (the real BeginTx), each connection has a
+// breaker of its own, and the provider yields the caller's database (NewConnFromDB) / the pooled one for the
+// caller's driver and data source (NewConn).
+//@ func NewConnFromDB
+//@   prop C11, C01
+//@   opaque New
+//@   loop 1 invariant -1 <= rangeindex && rangeindex < len(opts) && (rangeindex == -1 ==> conn.beginTx == begin && conn.brk == ret(breaker.New))
+//@   ensures [real-transactions-own-breaker] len(opts) == 0 ==> typeis(result, ptr(commonConn)) && unbox(result, ptr(commonConn)).beginTx == begin && unbox(result, ptr(commonConn)).brk == ret(breaker.New) && calls(breaker.New) == 1
+//@ func NewConnFromDB$1
+//@   prop C11
+//@   ensures [callers-database] result0 == db && result1 == nil
+//@ func NewConn
+//@   prop C11, C01
+//@   opaque New
+//@   loop 1 invariant -1 <= rangeindex && rangeindex < len(opts) && (rangeindex == -1 ==> conn.beginTx == begin && conn.brk == ret(breaker.New))
+//@   ensures [real-transactions-own-breaker] len(opts) == 0 ==> typeis(result, ptr(commonConn)) && unbox(result, ptr(commonConn)).beginTx == begin && unbox(result, ptr(commonConn)).brk == ret(breaker.New) && calls(breaker.New) == 1
+//@ func NewConn$1
+//@   prop C11
+//@   opaque getConn
+//@   ensures [pooled-connection-for-the-callers-source] calls(getConn, driverName, dataSourceName) == 1 && result0 == ret(getConn, 0) && result1 == ret(getConn, 1)
+// Prepare inside a transaction: the statement is prepared on that transaction and remembers its query text.
+//@ func (txSession).PrepareCtx
+//@   prop C11
+//@   opaque startSpan, endSpan
+//@   ensures [prepared-on-the-transaction] calls(PrepareContext) == 1 && arg(PrepareContext, 0) == t.Tx && arg(PrepareContext, 2) == query
+//@   ensures [prepare-error] ret(PrepareContext, 1) != nil ==> stmtSession == nil && err == ret(PrepareContext, 1)
+//@   ensures [statement-of-that-query] ret(PrepareContext, 1) == nil ==> err == nil && typeis(stmtSession, statement) && unbox(stmtSession, statement).query == query && unbox(stmtSession, statement).stmt == ret(PrepareContext, 0)
